@@ -240,7 +240,16 @@ class LoopChecker:
         for g in gens:
             it = g.iter
             if isinstance(it, ast.Call) and unparse(it.func) == "range":
-                iv = self.res.iv_of(it.args[-1 if len(it.args) < 3 else 1])
+                stop = it.args[-1 if len(it.args) < 3 else 1]
+                iv = self.res.iv_of(stop)
+                if len(it.args) == 3:
+                    # range(a, b, s) with a constant step s >= 1 makes at most ceil((b - a) / s) trips
+                    lo_iv, st_iv = self.res.iv_of(it.args[0]), self.res.iv_of(it.args[2])
+                    if st_iv.lo is not None and st_iv.lo == st_iv.hi and st_iv.lo >= 1 and iv.hi is not None and lo_iv.lo is not None:
+                        trips = max(0, -(-(iv.hi - lo_iv.lo) // st_iv.lo))
+                        if trips <= SMALL:
+                            continue
+                        return c.fail(f"comprehension over {unparse(it)} with up to {trips} trips")
                 if iv.hi is None or iv.hi > SMALL:
                     return c.fail(f"comprehension over {unparse(it)} with count in {iv}")
         return c.ok("V-ITER", "comprehension over a finite collection")
